@@ -40,8 +40,13 @@ Definition has_flag (t f : Z) : bool := negb (Z.land t f =? 0).
 
 Definition first_object (st : HOState) : bool :=
   match ho_last st with None => true | Some _ => false end.
+(* self.last_object.is_some_and(|kind| kind.has_flag(SPINNER) && !kind.has_flag(CIRCLE) && !kind.has_flag(SLIDER))
+   -- the circle and slider flags take precedence over the spinner flag *)
 Definition last_object_was_spinner (st : HOState) : bool :=
-  match ho_last st with Some k => has_flag k hot_spinner | None => false end.
+  match ho_last st with
+  | Some k => has_flag k hot_spinner && negb (has_flag k hot_circle) && negb (has_flag k hot_slider)
+  | None => false
+  end.
 
 (* ---------- the common head of a line ---------- *)
 Record Header := mkHeader {
